@@ -17,8 +17,8 @@ CHECKS = {
         "Tie every run: the real generator on template sets x 10 base-path forms, compiled, ALL request paths to depth 4 (5 thorough) over the "
         "set's alphabet + foreign + empty segment x methods through real ServeHTTP vs extracted model vs extracted reference matcher.",
    note="Trusted: Coq kernel; extraction + driver.ml; Go harness and reflective driver. Modelled not verified: Go semantics of the emitted router "
-        "code (transcribed by hand in Model/Router.v), net/url (oracle: URL.Path computed by the harness). Hypothesis cors_ok (CORS handler installed "
-        "or CORS off): the nil-CORS-handler corner is C17's.",
+        "code (transcribed by hand in Model/Router.v), net/url (oracle: URL.Path computed by the harness). The route functions do not depend on whether a CORS "
+        "handler is installed (a preflight entry always yields a handler: the CORS handler or not-found), so the theorem has no hypothesis about it.",
    ref="DESIGN.md section 4 (C03)"),
  "C04": dict(
    technique="Coq proof by induction over schemas and declaration lists that the composed parser snippets accept exactly the typed texts + differential check over the type x lexeme x cardinality matrix",
@@ -68,24 +68,22 @@ CHECKS = {
         "this round.",
    ref="DESIGN.md section 4 (C06-C08)"),
  "C08": dict(
-   technique="Coq proof of decoder strictness (missing required / wrong type rejected, for every schema) and completeness (every valid document is accepted, for every well-formed schema) + differential check on documents generated from the schema and their single-fault mutants; stability of the decoded value under re-encoding (decode, encode, decode again) proved; member-wise equality with the original document checked, not proved (partial)",
+   technique="Coq proof, by nested induction over schemas with an invariant on the decoder's shared key map: strictness (missing required / wrong type rejected), completeness (every valid document accepted) and losslessness (the decoded value re-encodes to keep s j, the kept part of the document) + differential check on documents generated from the schema and their single-fault mutants",
    text="C08_missing_required, C08_wrong_type, C08_declared_properties_decode: for every object schema (embedded members included) a document "
         "lacking a required property or carrying a non-null value of the wrong JSON type for a declared property is rejected by the decoder "
-        "model (frame lemma: an embedded member only deletes keys it declares). C08_valid_accepted: for every well-formed schema (allOf $ref "
-        "members are objects without additionalProperties of their own, no property declared twice) every document the independent validator "
-        "of Spec/JsonSpec.v accepts — any subset of the optional properties, any member order, null where nullable, extra keys where "
-        "additionalProperties allows them — decodes without error (invariant: the shrinking shared key map stays a duplicate-free sub-map of "
-        "the document in which the keys of the members still to come are untouched and those already consumed are gone). "
-        "C08_decoded_in_domain / C08_reencode_stable: for schemas with Go's integer sizes and nullable only around non-nullable schemas, the "
-        "value a valid document decodes to lies in the round-trip domain (integers in range, additional properties kept under their own "
-        "distinct keys), so it re-encodes to a document that is valid again and decodes to the same value: a decode/encode cycle loses "
-        "nothing the type holds. That the re-encoding equals, member by member, the kept part of the ORIGINAL document is checked, not "
-        "proved: the tie decodes documents generated FROM the schema by an independent generator and their single-fault mutants, compares value, "
-        "re-encoding and error (which must name the property) with the model, and the generator's validity label with the Coq validator. "
-        "C08_oneof_accepts_only_a_variant / C08_oneof_unknown_discriminator: a oneOf decoder accepts only what one of its variants' decoders "
-        "accepts (so the strictness theorems carry over) and rejects a discriminator value its switch does not list; tie: valid documents and "
-        "single changes of them (no / unknown / other variant's / ill-typed / duplicated discriminator, two variants' keys, non-objects).",
-   note="As C06. PARTIAL: `the re-encoding of the decoded value equals the kept part of j` (number spelling aside) is not a theorem; acceptance (C08_valid_accepted) and stability under a decode/encode cycle (C08_reencode_stable) are.",
+        "model (frame lemma: an embedded member only deletes keys it declares). C08_valid_accepted: for every well-formed schema every document "
+        "the independent validator of Spec/JsonSpec.v accepts — any subset of the optional properties, any member order, null where nullable, "
+        "extra keys where additionalProperties allows them — decodes without error. C08_lossless: the decoded value re-encodes to keep s j "
+        "(Spec/JsonSpec.v): the document's declared properties in schema order (allOf members spliced in), its undeclared members in document "
+        "order exactly when the schema has additionalProperties, numbers and date-times re-spelt, everything else verbatim; "
+        "C08_decoded_in_domain / C08_reencode_stable: that value lies in the round-trip domain, so a further decode/encode cycle changes "
+        "nothing. C08_oneof_*: a oneOf decoder accepts only what one of its variants accepts and rejects unlisted discriminator values. "
+        "Tie: documents generated FROM the schema by an independent generator and their single-fault mutants are decoded by the compiled "
+        "package; value, re-encoding and error (which must name the property) are compared with the model, the re-encoding also with the "
+        "extracted keep, the generator's validity label with the Coq validator.",
+   note="As C06. The theorems are stated for well-formed schemas of the dialect (wf_sch: allOf $ref members are objects without "
+        "additionalProperties of their own — D28's shape is outside — and no property declared twice; dom_sch: Go's integer sizes, nullable "
+        "only around non-nullable non-any schemas). keep is part of the specification (read it: 40 lines).",
    ref="DESIGN.md section 4 (C06-C08)"),
  "C01": dict(
    technique="Coq proof of the output gate (success => every written file parses and is a gofmt fixpoint, no clash of declared names; a broken file is an error) and of the identifier layer (PublicFieldName yields an exported Go identifier) + exhaustive compile matrix of the dialect's feature cells with the real generator and Go toolchain (PARTIAL: type-correctness is enumerated, not proved)",
@@ -186,8 +184,11 @@ CHECKS = {
    technique="Coq proof about NewRouter's CORS accumulation (set equality + NoDup by fold invariants) + differential check of preflight arguments",
    text="C17_args: with CORS enabled, a path item without OPTIONS gets a synthetic preflight entry with exactly its declared methods and a "
         "duplicate-free header list equal as a set to the canonicalised declared header parameters (path-item and operation level) plus the headers "
-        "its security schemes read; C17_not_shadowed, C17_off, C17_nil_handler (not found), C17_installed_handler. Tie: seeded path items with "
-        "header spellings/security/explicit OPTIONS x cors on/off x handler nil/set; the installed CORSHandler's arguments compared with model and spec.",
+        "its security schemes read; C17_not_shadowed, C17_off; C17_nil_handler: a request routed to the preflight entry without a CORS handler is "
+        "not found (status 404, the not-found handler, no middleware, no other operation — not even an OPTIONS operation of an overlapping "
+        "templated path); C17_installed_handler: with one it is answered by that handler built with the entry's arguments. Tie: seeded path "
+        "items with header spellings/security/explicit OPTIONS, and a family of literal paths overlapped by templated paths that declare "
+        "OPTIONS (every depth, trailing slash) x cors on/off x handler nil/set; the installed CORSHandler's arguments compared with model and spec.",
    note="Trusted as C03; http.CanonicalHeaderKey modelled for ASCII token characters (tied by the cases).",
    ref="DESIGN.md section 4 (C17)"),
  "C12": dict(
